@@ -327,11 +327,23 @@ def make_fitter(model_dir, case, av_range, distance_range=None):
     from astropy import units as u
     from sedfitter import Fitter
     law = law_object(case['law'], *case.get('law_units', ['um', 'cm2/g']))
+    # the documented interface takes Quantities: any length unit for a wavelength "filter", any angle unit for apertures
+    # (chosen deterministically from the case so that replays reproduce it)
+    pick = (len(case['filters']) + len(case['grid']['names'])) % 3
     if case['format'] == 'v2wav':
-        fnames = [f['wav'] * u.micron for f in case['filters']]
+        wu = [u.micron, u.nm, u.mm][pick]
+        if wu is not u.micron and not all(float((f['wav'] * u.micron).to(wu).to(u.micron).value) == f['wav'] for f in case['filters']):
+            # only when the round trip is exact: a wavelength that moves by one ulp is no longer a tabulated wavelength
+            # (and may cross an end node of the extinction law), which is outside what the checks claim
+            wu = u.micron
+        fnames = [(f['wav'] * u.micron).to(wu) if wu is not u.micron else f['wav'] * u.micron for f in case['filters']]
     else:
         fnames = [f['name'] for f in case['filters']]
     aps = np.array(case['theta']) * u.arcsec
+    if case.get('format') != 'v2wav' and pick == 1:
+        aps = aps.to(u.arcmin)
+    elif pick == 2:
+        aps = aps.to(u.deg)
     if distance_range is None:
         dr = [1., 2.] * u.kpc
     else:
